@@ -43,6 +43,8 @@ CHECKS = {
          TB + "CLI-level integrals at 0.01 mm fixed-point resolution (32-bit TLC integers).", TECH, "4/C17"),
  "C18": ("On TLC's (polynomial, knots, grid) cases the real compute_recession_curve is replayed in the two exactly solvable regimes (curvature 0; T = T_min below the lowest transmissivity knot): dt = -(integral of Sy)/(ET + curvature x T) at 1e-7, mean as requested, grid reversal; random spline / PEATCLSM parameters: refinement, reversal and time-increases-downward judged by TLC; CLI: `simulate recession` on Hydro.tla datasets with time-varying ET, curvature 0 and 250, judged by TraceSim.tla: levels in mm from highest to lowest, measured = view / 86400, and -dW/dt recovered per level pair from the two simulated curves = 24 x time-average ET over all steps of the member recession intervals + curvature x T_min.",
          TB + "With level-dependent T the value of each cell integral is not decided (no closed form in rationals) -- only its relations. The ET pattern makes both readings of 'time steps of an interval' (with / without the step at the last sample) give the same average.", TECH, "4/C18"),
+ "C19": ("Pest.tla states the structure of template / instruction / control files as a function of the shape and the relation between the artefacts; TLC checks the contract's self-consistency on all shapes; for Hydro.tla datasets x both parameterisations x random knot counts and values the six files and the two `simulate --observations` outputs are generated through the CLI, parsed by a plain parser and judged by TracePest.tla: declared counts = lines, parameter names = placeholders (case-folded), k-th observation = k-th instruction = k-th measured value bit for bit, one output line per instruction after each marker, value text within the instruction's columns, template filled with the original values = the original file; values of both signs and twelve magnitudes go through the real printing path for the width clause.",
+         TB + "One open known finding (KNOWN_FINDINGS.json: C19-ins-width-minimal-text-23-24). PEST itself is not installed: the file grammar is taken from the generated files and the PEST manual's conventions.", "TLA+ trace validation of generated artefacts (TLC judges the cross-file relation) + exhaustive shape model", "4/C19"),
  "C20": ("TLC explores Spowtd.tla exhaustively (every history of the five steps with two argument values each, read-only commands, doomed attempts, Fail and Kill at every abstract write index) checking Atomic (action property), NoMixture, Rerunnable, Confluent and termination of every started step, and emits every edge; the harness replays EVERY edge against the real CLI on a small Hydro.tla dataset: one canonical logical dump per abstract state, reproduced byte for byte by every history reaching it; faults (OperationalError) and kills (SIGKILL in a subprocess, hot journal) injected at the first / middle / last write and after the last write (thorough: every statement and every executemany row on a subset); after each the dump must equal the previous content and the step must re-run to the complete result; statement streams judged by TraceTxn.tla.",
          TB + "`load` is outside the property (its executescript commits the schema first). Write points are those visible to Python's sqlite3 layer (statements and executemany rows), not pager-level I/O.", "TLA+ model checking (TLC) of the command/transaction state machine + replay of every graph edge with fault and crash injection + trace validation of SQL statement streams", "4/C20"),
 }
